@@ -249,6 +249,10 @@ func (g *gen) instr(b *ssa.BasicBlock, idx int, ins ssa.Instruction) {
 			g.nilCheck(addr, ins.Pos(), g.label(ins.Pos(), "*"+ins.Addr.Name(), "star", "sel", "expr"))
 		}
 		g.frameCheck(addr, ins.Pos())
+		if g.onStore != nil {
+			g.onStore(g, ins, addr, v)
+		}
+		g.raceCheck(addr, ins.Pos(), "write")
 		g.store(addr, pt, v)
 	case *ssa.TypeAssert:
 		g.typeAssert(ins)
@@ -266,7 +270,16 @@ func (g *gen) instr(b *ssa.BasicBlock, idx int, ins ssa.Instruction) {
 			g.oblige("panic", g.label(ins.Pos(), "panic", "call"), "false", ins.Pos(), nil)
 		}
 	case *ssa.RunDefers:
-		// deferred calls are not interpreted (Unlock/Done idioms have no effect on the modelled state)
+		// deferred calls to functions whose (assumed) contract updates ghost state are applied here, last first
+		// (mutex Unlock); other deferred calls are not interpreted
+		for i := len(g.deferred) - 1; i >= 0; i-- {
+			d := g.deferred[i]
+			if callee := d.Call.StaticCallee(); callee != nil {
+				if ctr := g.e.ext[extKey(callee)]; ctr != nil && len(ctr.Sets) > 0 {
+					g.call(d, &d.Call, d.Pos())
+				}
+			}
+		}
 	case *ssa.Defer:
 		g.deferInstr(ins)
 	case *ssa.Go:
@@ -284,7 +297,29 @@ func (g *gen) instr(b *ssa.BasicBlock, idx int, ins ssa.Instruction) {
 	}
 }
 
+// raceCheck: between `go f()` and the matching wg.Wait() the spawning function must not touch what f may write
+func (g *gen) raceCheck(addr Val, pos token.Pos, what string) {
+	if addr.Place != nil && addr.Place.Kind == plCell && g.ctr != nil {
+		if name, ok := globalNames[addr.Place.Ref]; ok {
+			if mu, ok := g.e.guarded[name]; ok {
+				if gd := g.e.ghosts["$held"]; gd != nil {
+					held := app("select", g.heapGet("G|$held", arr("Int", "Bool")), globalAddr(mu))
+					g.oblige("lock", what+" of "+name+" holds "+mu, held, pos, nil)
+				}
+			}
+		}
+	}
+	if len(g.pendingKeys) == 0 || addr.Place == nil {
+		return
+	}
+	key := g.placeKey(addr.Place)
+	if g.pendingKeys[key] {
+		g.oblige("race", what+" of "+g.label(pos, key, "expr", "stmt")+" while a spawned goroutine may write it", "false", pos, nil)
+	}
+}
+
 func (g *gen) deferInstr(ins *ssa.Defer) {
+	g.deferred = append(g.deferred, ins)
 	// a deferred closure that recovers makes the function's panics invisible; not modelled.
 	if fn, ok := ins.Call.Value.(*ssa.MakeClosure); ok {
 		_ = fn
@@ -325,6 +360,33 @@ func (g *gen) goInstr(ins *ssa.Go) {
 		if ctr.HasAssign {
 			// the same places may change again until the join; re-evaluated in the state at the join
 			pos := ins.Pos()
+			if g.pendingKeys == nil {
+				g.pendingKeys = map[string]bool{}
+			}
+			env := g.specEnvHere()
+			env.calleeMode = true
+			for i, p := range callee.Params {
+				if i < len(args) {
+					env.vars[p.Name()] = args[i]
+				}
+			}
+			for i, fv := range callee.FreeVars {
+				if i < len(bindings) {
+					pv := bindings[i]
+					pt := fv.Type().(*types.Pointer).Elem()
+					if pv.Place == nil {
+						if _, ok := structOf(pt); !ok {
+							pv.Place = &Place{Kind: plCell, Ref: pv.T, Elem: pt}
+						}
+					}
+					env.vars[fv.Name()] = g.load(pv, pt)
+				}
+			}
+			for _, a := range ctr.Assigns {
+				if pl, err := g.placeOf(env, a); err == nil && pl.Kind != plMap {
+					g.pendingKeys[g.placeKey(pl)] = true
+				}
+			}
 			g.pendingGo = append(g.pendingGo, func() {
 				saveSafety := g.options.safety
 				g.options.safety = false
@@ -542,6 +604,7 @@ func (g *gen) unop(ins *ssa.UnOp) {
 		if x.Place == nil {
 			g.nilCheck(x, ins.Pos(), g.label(ins.Pos(), "*"+ins.X.Name(), "star", "sel", "expr"))
 		}
+		g.raceCheck(x, ins.Pos(), "read")
 		v := g.load(x, pt)
 		r := g.defineVal(ins, v.T)
 		g.introduce(r, false)
